@@ -147,6 +147,11 @@ func (h *NtfnsHandler) Start() error {
 		}
 	}
 
+	if err = h.initTasks(); err != nil {
+		logging.CPrint(logging.ERROR, "NtfnsHandler.Start(): initTasks error", logging.LogFormat{"err": err})
+		return err
+	}
+
 	h.quitWg.Add(2)
 	go handle(h)
 	go worker(h)
@@ -748,11 +753,11 @@ func (h *NtfnsHandler) reorg(dbtx mwdb.DBTransaction, currentBest txmgr.BlockMet
 	return nil
 }
 
-func worker(h *NtfnsHandler) {
-	defer Recover()
-	defer h.quitWg.Done()
-
-	mwdb.View(h.walletMgr.db, func(tx mwdb.ReadTransaction) error {
+// initTasks creates the task queue and re-queues the imports and removals that
+// were unfinished when the wallet stopped. It runs before the goroutines start:
+// API calls use the queue as soon as Start has returned.
+func (h *NtfnsHandler) initTasks() error {
+	return mwdb.View(h.walletMgr.db, func(tx mwdb.ReadTransaction) error {
 		wss, err := h.walletMgr.syncStore.GetAllWalletStatus(tx)
 		if err != nil {
 			return err
@@ -782,6 +787,11 @@ func worker(h *NtfnsHandler) {
 		}
 		return nil
 	})
+}
+
+func worker(h *NtfnsHandler) {
+	defer Recover()
+	defer h.quitWg.Done()
 
 	for {
 		select {
